@@ -15,11 +15,11 @@ C2M = os.environ.get('VERIF_C2M', '/verif/build/bin/c2m-asan')
 TMP = os.environ.get('VERIF_TMP', '/verif/build/tmp')
 
 # name, bits, signed, rank
-ITYPES = {'signed char': (8, True, 1), 'unsigned char': (8, False, 1), 'short': (16, True, 2), 'unsigned short': (16, False, 2),
+ITYPES = {'_Bool': (1, False, 0), 'char': (8, True, 1), 'long long': (64, True, 5), 'unsigned long long': (64, False, 5), 'signed char': (8, True, 1), 'unsigned char': (8, False, 1), 'short': (16, True, 2), 'unsigned short': (16, False, 2),
           'int': (32, True, 3), 'unsigned': (32, False, 3), 'long': (64, True, 4), 'unsigned long': (64, False, 4)}
 FTYPES = ['float', 'double']
 ALLT = list(ITYPES) + FTYPES
-UNS = {'signed char': 'unsigned char', 'short': 'unsigned short', 'int': 'unsigned', 'long': 'unsigned long'}
+UNS = {'signed char': 'unsigned char', 'char': 'unsigned char', 'short': 'unsigned short', 'int': 'unsigned', 'long': 'unsigned long', 'long long': 'unsigned long long'}
 
 
 def is_int(t):
@@ -63,7 +63,7 @@ def lit(draw, t):
                        st.integers(0, hi)))
     v = min(v, hi)
     neg = s and draw(st.integers(0, 3)) == 0
-    suf = {'unsigned': 'u', 'long': 'l', 'unsigned long': 'ul'}.get(promote(t), '')
+    suf = {'unsigned': 'u', 'long': 'l', 'unsigned long': 'ul', 'long long': 'll', 'unsigned long long': 'ull'}.get(promote(t), '')
     if promote(t) == 'int' and v > 0x7fffffff:
         v = 0x7fffffff
     txt = '%d%s' % (v, suf)
@@ -98,7 +98,7 @@ def expr(draw, env, depth, want=None, const_only=False):
             env.feats.add('mixed_signedness')
         if is_int(ta) and is_int(tb) and ITYPES[ta][2] != ITYPES[tb][2]:
             env.feats.add('mixed_rank')
-        if t in ('int', 'long'):  # would overflow: compute in the unsigned type, convert back (wraps)
+        if t in ('int', 'long', 'long long'):  # would overflow: compute in the unsigned type, convert back (wraps)
             return '((%s) ((%s) (%s) %s (%s) (%s)))' % (t, UNS[t], a, op, UNS[t], b), t
         if t in FTYPES and op == '*':
             op = '+'  # keep FP magnitudes bounded
@@ -110,8 +110,8 @@ def expr(draw, env, depth, want=None, const_only=False):
         t = uac(ta, tb)
         op = draw(st.sampled_from(['/', '%']))
         env.feats.add('division')
-        mn = '(-0x7fffffff - 1)' if t == 'int' else '(-0x7fffffffffffffffl - 1)'
-        guard = '((%s) (%s) == 0' % (t, b) + (' || ((%s) (%s) == %s && (%s) (%s) == -1)' % (t, a, mn, t, b) if t in ('int', 'long') else '') + ')'
+        mn = '(-0x7fffffff - 1)' if t == 'int' else '(-0x7fffffffffffffffl - 1)' if t == 'long' else '(-0x7fffffffffffffffll - 1)'
+        guard = '((%s) (%s) == 0' % (t, b) + (' || ((%s) (%s) == %s && (%s) (%s) == -1)' % (t, a, mn, t, b) if t in ('int', 'long', 'long long') else '') + ')'
         return '(%s ? (%s) (%s) : ((%s) %s (%s)))' % (guard, t, a, a, op, b), t
     if k == 6 and is_int(ta):  # shifts
         b, tb = draw(expr(env, depth - 1, None, const_only))
@@ -154,7 +154,7 @@ def expr(draw, env, depth, want=None, const_only=False):
             op = draw(st.sampled_from(['-', '~', '!']))
             if op == '!':
                 return '(!(%s))' % a, 'int'
-            if op == '-' and t in ('int', 'long'):
+            if op == '-' and t in ('int', 'long', 'long long'):
                 return '((%s) (0u - (%s) (%s)))' % (t, UNS[t], a), t
             return '(%s(%s))' % (op, a), t
         return '(-(%s))' % a, ta
@@ -336,7 +336,7 @@ def stmts(draw, env, bfs, depth, callable_, st_t):
                 elif not is_int(t):
                     e = '(%s)' % e
                 op = draw(st.sampled_from(['+', '-'] + (['&', '|', '^'] if is_int(t) and is_int(te) else [])))
-                if is_int(t) and is_int(te) and uac(t, te) in ('int', 'long'):
+                if is_int(t) and is_int(te) and uac(t, te) in ('int', 'long', 'long long'):
                     op = draw(st.sampled_from(['&', '|', '^']))  # the addition would be done in a signed type
                 env.feats.add('compound_assignment')
                 out.append('  %s %s= %s;' % (n, op, e))
